@@ -50,6 +50,8 @@ func mintTypesReduced() []mp {
 		{Kind: ref.ExpStep, Amount: "1", Step: time.Second, Mult: "1"},
 		{Kind: ref.ExpStep, Amount: "1000", Step: 10 * time.Second, Mult: "0"},
 		{Kind: ref.ExpStep, Amount: "1000003", Step: time.Second, Mult: "0.25"},
+		// a step longer than the periods it is used in: the period ends inside its first step
+		{Kind: ref.ExpStep, Amount: "1000003", Step: 60 * time.Second, Mult: "0.5"},
 	}
 }
 
